@@ -16,18 +16,21 @@ Qed.
 
 (* ---- Scala ---- *)
 Theorem c12_scala uc cfg pd uses defs :
-  c12_sc_observe uc cfg pd = Ok (uses, defs) -> c12_sc_dom pd = true -> c12_sc_known cfg pd = None ->
+  c12_sc_observe uc cfg pd = Ok (uses, defs) -> c12_sc_dom pd = true ->
   c12_good uses defs = true.
 Proof.
-  unfold c12_sc_observe. intros H Hdom Hk. apply c12_bind_ok in H as ([objs pkgs] & E & H).
+  unfold c12_sc_observe. intros H Hdom. apply c12_bind_ok in H as ([objs pkgs] & E & H).
   injection H as <- <-. cbn [fst snd]. eapply c12_sc_file; eauto.
 Qed.
 
-Theorem c12_scala_refuted :
-  c12_sc_known c12_sc_cfg0 c12_sc_witness = Some "C12-scala-unsigned-depth"%string /\
+(* regression pin of the fixed finding C12-scala-unsigned-depth: `type Grid = Vec<Vec<u16>>` spells
+   UShort two levels deep and now has its alias block (before the /repo fix: uses [UShort], defs []) *)
+Theorem c12_scala_unsigned_depth_fixed :
   c12_sc_dom c12_sc_witness = true /\
-  c12_sc_observe uc_exec c12_sc_cfg0 c12_sc_witness = Ok ([lit "UShort"], []) /\
-  c12_good [lit "UShort"] [] = false.
+  c12_sc_scan c12_sc_witness = true /\
+  c12_sc_observe uc_exec c12_sc_cfg0 c12_sc_witness =
+    Ok ([lit "UShort"], [lit "UByte"; lit "UShort"; lit "UInt"; lit "ULong"]) /\
+  c12_good [lit "UShort"] [lit "UByte"; lit "UShort"; lit "UInt"; lit "ULong"] = true.
 Proof. vm_compute. repeat split; reflexivity. Qed.
 
 (* ---- non-vacuity: () and u16 three levels deep, next to a directly visible u8 ---- *)
@@ -50,7 +53,7 @@ Example c12_swift_nonvacuous :
 Proof. vm_compute. split; reflexivity. Qed.
 
 Example c12_scala_nonvacuous :
-  c12_sc_dom c12_nonvac_pd = true /\ c12_sc_known c12_sc_cfg0 c12_nonvac_pd = None /\
+  c12_sc_dom c12_nonvac_pd = true /\
   c12_sc_observe uc_exec c12_sc_cfg0 c12_nonvac_pd =
     Ok ([lit "UShort"; lit "UByte"], [lit "UByte"; lit "UShort"; lit "UInt"; lit "ULong"]).
 Proof. vm_compute. repeat split; reflexivity. Qed.
